@@ -460,6 +460,78 @@ def rule_r4(chk, p, t):
 
     r.guard("imported-observations-dedup", dedup)
 
+    def path_chain():
+        """The importer path given to the scenario reaches every tasking engine unchanged and unconditionally, the
+        engine opens the importer whenever it has a path, and loads from it whenever it has an importer."""
+        from rsa.terms import inline_locals
+
+        def bound(call, callee, name):
+            params = [a.arg for a in callee.node.args.posonlyargs + callee.node.args.args]
+            if callee.kind in ("method", "classmethod") or (params and params[0] in ("self", "cls")):
+                params = params[1:]
+            for k in call.keywords:
+                if k.arg == name:
+                    return k.value
+            if name in params and params.index(name) < len(call.args):
+                return call.args[params.index(name)]
+            return None
+
+        hops = []
+        sb = p.cls("resonaate.scenario.scenario_builder.ScenarioBuilder")
+        init, ite = sb.methods.get("__init__"), sb.methods.get("_initTaskingEngines")
+        require(init is not None and ite is not None, "ScenarioBuilder.__init__ / _initTaskingEngines not found", sb.node)
+        c1 = find_calls(init.node, "_initTaskingEngines")
+        require(len(c1) == 1, "_initTaskingEngines is not called once", init.node)
+        hops.append((init, c1[0], ite))
+        ctor = [c for c in walk_no_nested(ite.node) if isinstance(c, ast.Call) and call_name(c) == "CentralizedTaskingEngine"]
+        require(len(ctor) == 1, "the tasking engine is not constructed once", ite.node)
+        einit = eng.methods.get("__init__")
+        hops.append((ite, ctor[0], einit))
+        base = p.cls("resonaate.tasking.engine.engine_base.TaskingEngine")
+        binit = base.methods.get("__init__")
+        sup = [c for c in walk_no_nested(einit.node) if isinstance(c, ast.Call) and call_name(c) == "__init__"]
+        require(len(sup) == 1, "the engine does not call super().__init__ once", einit.node)
+        hops.append((einit, sup[0], binit))
+        bad = []
+        for caller, call, callee in hops:
+            v = bound(call, callee, "importer_db_path")
+            if v is None:
+                bad.append(f"{caller.qualname} does not pass importer_db_path on to {callee.qualname}")
+                continue
+            e = inline_locals(caller, v)
+            if not (isinstance(e, ast.Name) and e.id == "importer_db_path" and "importer_db_path" in caller.all_params):
+                bad.append(f"{caller.qualname} passes `{unparse(e)[:70]}` as importer_db_path (expected its own importer_db_path, unconditionally): engines built without the path never load the stored observations")
+            cfg = cfg_of(caller)
+            conds = [unparse(cfg.nodes[cid].ast) for cid, lab in cfg.control_conditions(cfg.node_of(call).id) if cfg.nodes[cid].kind == "cond"]
+            if any("realtime" in c or "importer" in c for c in conds):
+                bad.append(f"{caller.qualname} builds {callee.cls.name if callee.cls else callee.name} under {conds}")
+        # the engine opens the importer iff it has a path, and loads iff it has an importer
+        opens = [n for n in walk_no_nested(binit.node) if isinstance(n, ast.Assign) and unparse(n.targets[0]) == "self._importer_db" and isinstance(n.value, ast.Call) and call_name(n.value) == "ImporterDatabase"]
+        if len(opens) != 1:
+            bad.append("the engine does not open the importer database exactly once")
+        else:
+            cfgb = cfg_of(binit)
+            conds = [(unparse(cfgb.nodes[cid].ast), lab) for cid, lab in cfgb.control_conditions(cfgb.node_of(opens[0]).id) if cfgb.nodes[cid].kind == "cond"]
+            extra = [c for c in conds if c != ("importer_db_path", True) and not (c[0].startswith("isinstance(") and c[1] is True)]
+            if ("importer_db_path", True) not in conds or extra:
+                bad.append(f"the importer database is opened under {conds}, expected exactly `if importer_db_path`")
+            v = bound(opens[0].value, p.cls("resonaate.data.importer_database.ImporterDatabase").methods.get("__init__"), "db_path") if p.cls("resonaate.data.importer_database.ImporterDatabase").methods.get("__init__") else None
+            if v is not None and unparse(v) != "importer_db_path":
+                bad.append(f"the importer database is opened on `{unparse(v)}`")
+        loads = [c for c in find_calls(assess.node, "loadImportedObservations")]
+        if loads:
+            cfga = cfg_of(assess)
+            conds = [(unparse(cfga.nodes[cid].ast), lab) for cid, lab in cfga.control_conditions(cfga.node_of(loads[0]).id) if cfga.nodes[cid].kind == "cond"]
+            if conds not in ([("self._importer_db", True)], [("self._importer_db is not None", True)]):
+                bad.append(f"imported observations are loaded under {conds}, expected exactly `if self._importer_db`")
+        cons = "importer-path-chain"
+        if bad:
+            r.violation(cons, "importer-path:" + ";".join(b[:50] for b in bad), "; ".join(bad), ite.loc(ctor[0]))
+        else:
+            r.ok(cons, "scenario importer path -> ScenarioBuilder -> engine constructor -> ImporterDatabase -> loadImportedObservations, each hop unconditional", ite.loc(ctor[0]), obligations=len(hops) + 2)
+
+    r.guard("importer-path-chain", path_chain)
+
     # remote-handle typing
     def handles():
         stores = remote.install(p, t)
